@@ -32,6 +32,9 @@ type Opts struct {
 	YAMLOrder bool
 	// FileTails draws Layout.YAMLTail / HCLTail (see AddFileTails): how the two files end.
 	FileTails bool
+	// YAMLAnchors draws Layout.YAMLAnchors (see AddYAMLAnchors): user maps of the YAML rendering written through
+	// anchors, aliases and merge keys (`&a`, `*a`, `<<: *a`, `<<: [*a, *b]`), incl. keys that override a merged one.
+	YAMLAnchors bool
 	// MaxSources, MaxSteps, MaxScenarios bound the sizes (0 = 3, 4, 3).
 	MaxSources, MaxSteps, MaxScenarios int
 }
@@ -465,6 +468,9 @@ func GenHTTP(t *rapid.T, o Opts) Model {
 	if o.FileTails {
 		AddFileTails(t, &m)
 	}
+	if o.YAMLAnchors {
+		AddYAMLAnchors(t, &m)
+	}
 	return m
 }
 
@@ -491,6 +497,9 @@ func GenGRPC(t *rapid.T, o Opts) Model {
 	}
 	if o.FileTails {
 		AddFileTails(t, &m)
+	}
+	if o.YAMLAnchors {
+		AddYAMLAnchors(t, &m)
 	}
 	return m
 }
